@@ -155,6 +155,10 @@ class C18(Check):
         for f in (A.gcirc, C.stripe_to_eta, C.stripe_to_incl, C.radec_to_munu, C.munu_to_radec,
                   M.angles_to_x, M.x_to_angles):
             self.reach.add(f)
+        self.brd.per_case = 3
+        self.brd.attach(self.rec, A, 'gcirc', every=3, own=True)
+        self.brd.attach(self.rec, M, 'angles_to_x', every=3, own=True)
+        self.brd.attach(self.rec, M, 'x_to_angles', every=3, own=True)
         self.rec.wrap(A, 'gcirc')
         self.rec.wrap(C, 'stripe_to_eta')
         self.rec.wrap(C, 'stripe_to_incl')
